@@ -17,6 +17,7 @@ import (
 type c18Op struct {
 	K string  `json:"k"` // add | get | reset | mul | plus | addcur (Add(Get())) | addlast (repeat the last sample)
 	V float64 `json:"v,omitempty"`
+	N int     `json:"n,omitempty"` // addlast: that many times in a row (a long constant stretch: averages converge, changes become tiny)
 }
 
 type c18Case struct {
@@ -79,6 +80,8 @@ func genC18(t *rapid.T) c18Case {
 			}
 		case "plus":
 			op.V = float64(rapid.IntRange(1, 1000).Draw(t, "c"))
+		case "addlast":
+			op.N = rapid.SampledFrom([]int{1, 1, 1, 2, 5, 40, 120, 600}).Draw(t, "repeat")
 		}
 		c.Ops = append(c.Ops, op)
 	}
@@ -161,7 +164,13 @@ func runC18(_ *testing.T, c c18Case) (out kit.Outcome) {
 	)
 	resetRef := func() { count, sum, lo, hi, last, updated = 0, 0, 0, 0, 0, false }
 	tol := func(x float64) float64 { return math.Abs(x)*1e-9 + 1e-300 }
-	for i, op := range c.Ops {
+	ops := make([]c18Op, 0, len(c.Ops))
+	for _, op := range c.Ops {
+		for r := 0; r < maxInt(1, op.N); r++ {
+			ops = append(ops, c18Op{K: op.K, V: op.V})
+		}
+	}
+	for i, op := range ops {
 		before := m.Get()
 		switch {
 		case op.K == "addcur" && before > 0 && c.Type != "var": // (the variance type stores squared units: feeding it back leaves the sample domain)
@@ -297,7 +306,9 @@ func runC18(_ *testing.T, c c18Case) (out kit.Outcome) {
 			if got < 0 {
 				return kit.Viol("var:negative", "op %d %+v: variance Get()=%v < 0", i, op, got)
 			}
-			if op.K == "add" && !updated && varWasPositive && c.Alpha2 < 1 && got == 0 {
+			if op.K == "add" && !updated && varWasPositive && c.Alpha2 < 1 && got == 0 && before*(1-c.Alpha2) > 1e-300 {
+				// (a variance that has decayed to the bottom of the float range - hundreds of identical samples - does
+				// underflow to 0 in one step: before x (1 - alpha) must be representable)
 				// a variance smoothed with a factor below 1 keeps part of every earlier squared deviation: it cannot fall
 				// back to exactly 0 in one step (the configured alphaVariance must be the factor in use)
 				return kit.Viol("var:forgotten", "op %d Add(%v): the variance was %v and is smoothed with alphaVariance=%v < 1, yet it reads 0 after one more sample", i, op.V, before, c.Alpha2)
